@@ -114,6 +114,28 @@ def run(tier, seed, escalate=False):
                 mism.append({"diffs": ["autodetect:%s!=%s (trailing sep: %s)" % (want, gg, got_t)], "ops": [{k: v for k, v in c.items() if k != "path"}],
                              "stream": -1, "explained_by_known": False})
         dist["autodetect_cases"] = len(cases)
+        # ONE directory path whose contents change between calls (written into, emptied, refilled with another format): every
+        # call sees the directory as it is NOW — the decision depends on the path and the current listing, nothing else
+        reuse = os.path.join(work, "reused_dir")
+        os.makedirs(reuse)
+        listings = [[], ["acqu.par", "data.csv"], ["acqus", "fid"], [], ["proc", "1r"], ["acqu.par", "data.csv"], ["other.txt"], ["acqu"]]
+        seq_ops = []
+        seq_got = []
+        for listing in listings:
+            for nm in os.listdir(reuse):
+                os.remove(os.path.join(reuse, nm))
+            for nm in listing:
+                open(os.path.join(reuse, nm), "w").close()
+            seq_got.append(real_autodetect(reuse))
+            seq_ops.append({"op": "load", "q": "autodetect", "ext": "", "listing": list(listing), "isDir": True})
+        souts, _ = run_model(seq_ops)
+        for k_, (o, got) in enumerate(zip(souts, seq_got)):
+            n_eval += 1
+            want = o.get("result")
+            gg = got if (got in disp or got in ("TypeError",)) else got + "!nodispatch"
+            if gg != want:
+                key = "C16:autodetect-depends-on-earlier-calls"
+                fails.append({"key": key, "clause": key, "ops": [{"step": k_, "listing_now": listings[k_], "listings_before": listings[:k_], "got": got, "want": want}]})
         # ---------------- (b) unit scaling, exhaustive over prefix x unit
         units = [u.strip() for u in DNPLAB_CONFIG.getlist("UNITS", "units")]
         unit_strings = units + [p + u for p in PREFIX for u in units] + [" " + p + u + " " for p in ("M", "m") for u in units]
